@@ -1201,6 +1201,8 @@ def _run_span_history(c, case):
     f = case["f"]
     with c.running(case):
         def end_point(x):
+            if x is None:
+                return None          # an end point left out: the span's default for its direction
             if isinstance(x, list):
                 return (irispie.start if x[0] == "start" else irispie.end) + x[1] if x[1] else (irispie.start if x[0] == "start" else irispie.end)
             return _period_from_ordinal(f, x)
@@ -1208,6 +1210,12 @@ def _run_span_history(c, case):
         ok, span = _try(c, "Span", lambda: irispie.Span(end_point(m_start), end_point(m_end), step), f)
         if not ok:
             return
+        # documented defaults of an end point that was left out: a forward span runs from the context start to the context end,
+        # a backward span from the context end down to the context start
+        if m_start is None:
+            m_start = ["start" if step > 0 else "end", 0]
+        if m_end is None:
+            m_end = ["end" if step > 0 else "start", 0]
         ints = list(case.get("ints", [3, 5, 2]))
         def concrete():
             return not isinstance(m_start, list) and not isinstance(m_end, list)
@@ -1319,9 +1327,9 @@ def _random_history(rng, tier):
         off1, off2 = int(rng.integers(-3, 4)), int(rng.integers(-3, 4))
         fwd = step > 0
         if which in (0, 2):
-            start = ["start" if fwd else "end", off1]
+            start = ["start" if fwd else "end", off1] if rng.random() < 0.7 else None
         if which in (1, 2):
-            end = ["end" if fwd else "start", off2]
+            end = ["end" if fwd else "start", off2] if rng.random() < 0.7 else None
     n_ops = int(rng.integers(1, 13))
     names = ["shift", "shift_start", "shift_end", "reverse", "reversed", "add", "radd", "sub", "restep", "copy"]
     resolve_at = int(rng.integers(0, n_ops)) if open_ended else -1
